@@ -12,6 +12,7 @@ package rcmgr
 import (
 	"fmt"
 	"math"
+	"net/netip"
 	"os"
 	"sort"
 	"strings"
@@ -21,10 +22,10 @@ import (
 	"github.com/libp2p/go-libp2p/core/network"
 	"github.com/libp2p/go-libp2p/core/peer"
 	"github.com/libp2p/go-libp2p/core/protocol"
-	vs "github.com/libp2p/go-libp2p/x/verif/vsched"
-	"github.com/libp2p/go-libp2p/x/verif/vrep"
-	ma "github.com/multiformats/go-multiaddr"
 	"github.com/libp2p/go-libp2p/x/rate"
+	"github.com/libp2p/go-libp2p/x/verif/vrep"
+	vs "github.com/libp2p/go-libp2p/x/verif/vsched"
+	ma "github.com/multiformats/go-multiaddr"
 )
 
 // ---- ledger of what the successful operations hold ----
@@ -117,9 +118,10 @@ type c03sScn struct {
 	Name   string
 	Limits func(c *ConcreteLimitConfig)
 	Opts   []Option
-	Setup  func(e *c03sEnv)         // sequential, under the scheduler, before the race
-	Race   []func(e *c03sEnv)       // one thread each
-	Names  []string                 // thread names
+	Setup  func(e *c03sEnv)   // sequential, under the scheduler, before the race
+	Race   []func(e *c03sEnv) // one thread each
+	Names  []string           // thread names
+	Probe  func(e *c03sEnv)   // sequential, under the scheduler, after the race was audited
 }
 
 var (
@@ -223,6 +225,15 @@ func c03sBody(sc c03sScn) func(x *vs.Exec) {
 			c03sAudit(x, e, "after the race")
 		}
 		x.Outcome = c03sOutcome(e)
+		if ok && x.VioKey == "" && sc.Probe != nil && !s.Free {
+			s.Go("probe", func() { sc.Probe(e) })
+			if !s.Run() {
+				c03sFailRun(x, s, "probe")
+				ok = false
+			} else {
+				c03sAudit(x, e, "after the probe")
+			}
+		}
 		// release everything, then every scope reads zero
 		if ok && x.VioKey == "" {
 			s.Go("release", func() {
@@ -242,6 +253,11 @@ func c03sBody(sc c03sScn) func(x *vs.Exec) {
 				for name, rs := range c03sScopes(rm) {
 					if u := c03sStatOf(rs); u != (c03sUse{}) {
 						x.Fail("not-zero-after-last-done", "scope %s still holds %v after every holder was released", name, u)
+					}
+				}
+				for i, v := range append(append([]int{}, rm.connLimiter.connsPerNetworkPrefixV4...), rm.connLimiter.connsPerNetworkPrefixV6...) {
+					if v != 0 {
+						x.Fail("subnet-counter-not-zero", "network prefix counter #%d = %d after every connection was released", i, v)
 					}
 				}
 				if n := len(rm.connLimiter.ip4connsPerLimit) + len(rm.connLimiter.ip6connsPerLimit); n > 0 {
@@ -306,6 +322,47 @@ func (e *c03sEnv) openConn(name string, dir network.Direction, fd bool, addr ma.
 	}
 	h := e.led.conn(name, dir, fd)
 	return c, h
+}
+
+// openConnAny is openConn for scenarios with an allow list: a connection admitted through the allow-list
+// fallback is charged to the allow-listed transient / system scopes.
+func (e *c03sEnv) openConnAny(name string, dir network.Direction, fd bool, addr ma.Multiaddr) (network.ConnManagementScope, *c03sHolder) {
+	c, h := e.openConn(name, dir, fd, addr)
+	if c != nil && c.(*connectionScope).isAllowlisted {
+		h.scopes = []string{"altransient", "alsystem"}
+	}
+	if h != nil {
+		h.name += "@" + addr.String()
+	}
+	return c, h
+}
+
+// c03sSubnetProbe: with k connections from the IP of addr open, keeps opening connections from it until one is
+// refused; the number open at the same time must never exceed cap.
+func c03sSubnetProbe(cap int, addr ma.Multiaddr) func(e *c03sEnv) {
+	return func(e *c03sEnv) {
+		ip, _ := addr.ValueForProtocol(ma.P_IP4)
+		open := func() int {
+			n := 0
+			for _, h := range e.led.holders {
+				if h.open && strings.Contains(h.name, "@/ip4/"+ip+"/") {
+					n++
+				}
+			}
+			return n
+		}
+		for i := 0; i <= cap+1; i++ {
+			if n := open(); n > cap {
+				e.x.Fail("subnet-cap-exceeded", "%d connections from %s are open at the same time, the per-subnet cap is %d (holders: %s)", n, ip, cap, c03sOutcome(e))
+				return
+			}
+			c, h := e.openConnAny(fmt.Sprintf("probe%d", i), network.DirInbound, false, addr)
+			if c == nil {
+				return
+			}
+			e.closeLater(c, h)
+		}
+	}
 }
 
 func (e *c03sEnv) setPeer(c network.ConnManagementScope, h *c03sHolder, p peer.ID) bool {
@@ -434,7 +491,10 @@ func c03sScenarios(thorough bool) []c03sScn {
 				func(e *c03sEnv) { c03sSpanReserve(e, 60, true) },
 				func(e *c03sEnv) { c03sSpanReserve(e, 60, false) }}},
 		{Name: "two connections attach to one peer (peer conn limit 1) while a third thread opens a stream",
-			Limits: func(c *ConcreteLimitConfig) { c03sOne(&c.peerDefault); c.peerDefault.Streams, c.peerDefault.StreamsOutbound = 1, 1 },
+			Limits: func(c *ConcreteLimitConfig) {
+				c03sOne(&c.peerDefault)
+				c.peerDefault.Streams, c.peerDefault.StreamsOutbound = 1, 1
+			},
 			Race: []func(*c03sEnv){
 				func(e *c03sEnv) {
 					c, h := e.openConn("connA", network.DirOutbound, true, c03sA1)
@@ -455,6 +515,22 @@ func c03sScenarios(thorough bool) []c03sScn {
 					e.setProtocol(st, h, c03sP, c03sQ)
 					e.closeLater(st, h)
 				}}},
+		{Name: "two connections from one allow-listed IP race through the allow-list fallback, network prefix cap 1",
+			Limits: func(c *ConcreteLimitConfig) { c.system.Conns, c.system.ConnsInbound, c.system.ConnsOutbound = 0, 0, 0 },
+			Opts: []Option{WithAllowlistedMultiaddrs([]ma.Multiaddr{ma.StringCast("/ip4/1.2.3.4")}),
+				// (an allow-listed network without a prefix limit of its own gets one with the allow-listed system
+				// connection limit, which takes precedence over the per-subnet limits: the cap must be given this way)
+				WithNetworkPrefixLimit([]NetworkPrefixLimit{{Network: netip.MustParsePrefix("1.2.3.4/32"), ConnCount: 1}}, nil)},
+			Race: []func(*c03sEnv){
+				func(e *c03sEnv) {
+					c, h := e.openConnAny("connA", network.DirInbound, false, c03sA1)
+					e.closeLater(c, h)
+				},
+				func(e *c03sEnv) {
+					c, h := e.openConnAny("connB", network.DirInbound, false, ma.StringCast("/ip4/1.2.3.4/tcp/1003"))
+					e.closeLater(c, h)
+				}},
+			Probe: c03sSubnetProbe(1, c03sA1)},
 		{Name: "scope garbage collection races a stream open and close on an idle peer and protocol",
 			Setup: func(e *c03sEnv) {
 				st, h := e.openStream("warm", c03sP, network.DirOutbound)
@@ -471,6 +547,28 @@ func c03sScenarios(thorough bool) []c03sScn {
 	}
 	if thorough {
 		scs = append(scs,
+			c03sScn{Name: "allow-listed IP, system admits one connection, network prefix cap 2: two opens race a close",
+				Limits: func(c *ConcreteLimitConfig) { c.system.Conns, c.system.ConnsInbound, c.system.ConnsOutbound = 1, 1, 1 },
+				Opts: []Option{WithAllowlistedMultiaddrs([]ma.Multiaddr{ma.StringCast("/ip4/1.2.3.4")}),
+					WithNetworkPrefixLimit([]NetworkPrefixLimit{{Network: netip.MustParsePrefix("1.2.3.4/32"), ConnCount: 2}}, nil)},
+				Setup: func(e *c03sEnv) {
+					c, h := e.openConnAny("conn0", network.DirInbound, false, c03sA1)
+					e.x.Data = []any{c, h}
+				},
+				Race: []func(*c03sEnv){
+					func(e *c03sEnv) {
+						d := e.x.Data.([]any)
+						e.done(d[0].(network.ConnManagementScope), d[1].(*c03sHolder))
+					},
+					func(e *c03sEnv) {
+						c, h := e.openConnAny("connA", network.DirInbound, false, ma.StringCast("/ip4/1.2.3.4/tcp/1003"))
+						e.closeLater(c, h)
+					},
+					func(e *c03sEnv) {
+						c, h := e.openConnAny("connB", network.DirInbound, false, ma.StringCast("/ip4/1.2.3.4/tcp/1004"))
+						e.closeLater(c, h)
+					}},
+				Probe: c03sSubnetProbe(2, c03sA1)},
 			c03sScn{Name: "stream Done races a memory reservation on its span",
 				Setup: func(e *c03sEnv) {
 					st, h := e.openStream("stream", c03sP, network.DirOutbound)
